@@ -6,9 +6,11 @@ import re
 
 
 def parse_program(text):
-    prog = {"fast": 1, "inits": [], "threads": [], "after": {}}
+    prog = {"fast": 1, "inits": [], "threads": [], "after": {}, "peak": None}
     for line in text.splitlines():
         line = line.strip()
+        if line.startswith("# peak"):
+            prog["peak"] = int(line.split()[2])
         if not line or line.startswith("#"):
             continue
         if line.startswith("config"):
@@ -254,4 +256,14 @@ def analyse(prog, lines):
                     findings.append(("C02", "object at %d has count %d at quiescence, owners say %d (stores %d + owned %d + guards %d - unpaid slots %d)" % (
                         a, have, expect, stores.get(a, 0), owned.get(a, 0), guards.get(a, 0), slots.get(a, 0))))
         metrics["quiescent_checked"] = True
+        nnodes = sum(1 for e in fin if e.f[0] == "node")
+        metrics["nodes"] = nnodes
+        if prog.get("peak") is not None and nnodes > prog["peak"]:
+            # with more than one thread alive a writer inside a cooling node legitimately blocks
+            # its reuse (known finding D7); strictly sequential churn must reuse the node
+            cls = "D7-node-bound-writer-inside" if prog["peak"] > 1 else None
+            findings.append(("C11", "%d nodes exist although at most %d threads were alive at a time (threads join their predecessors)" % (nnodes, prog["peak"]), cls))
+        for e in fin:
+            if e.f[0] == "node" and e.f[2] == "1":
+                findings.append(("C11", "node %s is still marked in use after all threads have exited" % e.f[1]))
     return findings, metrics
